@@ -16,6 +16,10 @@ def run(ctx, chk):
                        "performs the identical decoder calls with identical outcomes as load(x).")
     chk.rule("C14.claim-before-read", "every read of the buffer lies below the bytes claimed so far")
     chk.rule("C14.read", "FINISHED: read = bytes claimed")
+    chk.rule("C14.action", "where an item ends is decided by its head alone: per initial byte the length / count handed on is the "
+                           "immediate value of the head or the big-endian argument of the head's width (shared with C08.action)")
+    chk.rule("C14.claim", "per initial byte the decoder claims the head, its argument and - for strings - exactly the decoded length "
+                          "(shared with C08.claim)")
     chk.rule("C14.prefix", "source_size only feeds claim comparisons")
     chk.rule("C14.window", "each cbor_stream_decode call in cbor_load receives source + r and source_size - r for the same r, "
                            "r being the current value of result->read")
@@ -23,7 +27,7 @@ def run(ctx, chk):
                          "loop exits, with no further decoder call")
     chk.rule("C14.accumulate", "result->read is only ever 0 plus the read counts of FINISHED decoder results")
     chk.not_decided += ["the n-item split of a concatenation as an executed fact (follows by induction from the clauses)"]
-    n = DR.per_byte(chk, "C14", prog, eff, {"read", "claim-before-read"})
+    n = DR.per_byte(chk, "C14", prog, eff, {"read", "claim-before-read", "action", "claim"})
     chk.floor("C14.read", "per-byte obligations", n, 700)
     DR.size_only_feeds_claims(chk, "C14.prefix", prog)
     chk.rule("C14.payload-copy", "the tree builder reads exactly the claimed payload bytes: nothing of what follows the item")
